@@ -29,8 +29,13 @@ D1 == Leaf \cup {JArr(s) : s \in SeqsUpTo(TakeN(Leaf, 5), 2)}
         \cup {JObj(<<Pair(<<k1>>, v1), Pair(<<k2>>, v2)>>) : k1 \in {"a", "b"}, k2 \in {"a", "b"}, v1 \in TakeN(Leaf, 3), v2 \in TakeN(Leaf, 3)}
 D2 == D1 \cup {JArr(<<x, y>>) : x \in TakeN(D1, 12), y \in TakeN(D1, 6)} \cup {JObj(<<Pair(<<"a">>, x), Pair(<<"b">>, y)>>) : x \in TakeN(D1 \ Leaf, 10), y \in TakeN(D1, 5)}
            \cup {JObj(<<Pair(<<"b">>, x), Pair(<<"a">>, JNull)>>) : x \in TakeN(D1 \ Leaf, 14)}
+\* values whose own type still mentions the placeholder (untyped nulls, empty collections of dynamic), inside structures
+DynOwn == {SeqV(TTup(<<TDyn, TNum>>), <<Null(TDyn), NumV(4)>>), MapV(TObj([a |-> TDyn, b |-> TStr]), [a |-> Null(TDyn), b |-> StrV(<<"a">>)]), SeqV(TList(TDyn), <<>>),
+           SeqV(TTup(<<TTup(<<TDyn>>)>>), <<SeqV(TTup(<<TDyn>>), <<Null(TDyn)>>)>>), SeqV(TTup(<<TList(TDyn), TStr>>), <<SeqV(TList(TDyn), <<>>), StrV(<<"a">>)>>), Null(TDyn),
+           MapV(TObj([a |-> TMap(TDyn)]), [a |-> MapV(TMap(TDyn), <<>>)])}
+DynOwnLines == {[k |-> "jm", vals |-> <<v>>, tys |-> <<TDyn, v.ty>>] : v \in DynOwn}
 DLine == [k |-> "jd", docs |-> SetToSeq(IF Thorough THEN D2 ELSE TakeN(D2, 600))]
-ASSUME LET out == [j \in 1..Len(Mine) |-> MLine(TS[Mine[j]])] \o [j \in 1..Len(Mine) |-> XLine(TS[Mine[j]])] \o (IF ShardI = 0 THEN <<DLine>> ELSE <<>>) IN
+ASSUME LET out == [j \in 1..Len(Mine) |-> MLine(TS[Mine[j]])] \o [j \in 1..Len(Mine) |-> XLine(TS[Mine[j]])] \o (IF ShardI = 0 THEN <<DLine>> \o SetToSeq(DynOwnLines) ELSE <<>>) IN
        ndJsonSerialize(IOEnv.VOUT, out) /\ PrintT(<<"GEN", Len(out)>>)
 VARIABLE x
 Init == x = 0
